@@ -70,22 +70,28 @@ Lemma results_lengths incl ds shs ws ocs : results_decide incl ds shs ws ocs ->
   List.length shs = List.length ocs.
 Proof. induction 1; cbn; congruence. Qed.
 
-Lemma all_lt_eval incl ds shs ws ocs : results_decide incl ds shs ws ocs ->
-  all_lt (map (fun x => u64_sub x 1) (nd_add (map fst ocs) (map snd ocs))) shs = fits shs ocs.
+Lemma p52_two64 : P52 < two64.
+Proof. unfold P52, two64. lia. Qed.
+
+Lemma extent_in_data_eval incl ds shs ws ocs : results_decide incl ds shs ws ocs ->
+  extent_in_data shs (map fst ocs) (map snd ocs) = fits shs ocs.
 Proof.
   induction 1 as [|d ds sh shs w ws [o c] ocs Hd Hsh _ IH]; [reflexivity|].
-  cbn [map nd_add all_lt fst snd]. unfold fits. cbn [combine forallb fst snd]. fold (fits shs ocs). rewrite IH.
-  cbn [decides] in Hd. destruct Hd as (Ho & Hc & Hoc & _). pose proof axis_max_two64.
-  rewrite last_index_no_wrap by lia. f_equal. lia.
+  cbn [map extent_in_data fst snd]. unfold fits. cbn [combine forallb fst snd]. fold (fits shs ocs). rewrite IH.
+  cbn [decides] in Hd. destruct Hd as (Ho & Hc & Hoc & _). pose proof axis_max_two64. pose proof p52_two64.
+  f_equal. destruct (Z_lt_le_dec o sh) as [Hlt|Hge].
+  - rewrite u64_sub_small by lia. lia.
+  - replace (o >=? sh) with true by lia. rewrite orb_true_r. cbn [orb negb]. lia.
 Qed.
 
-Lemma any_gt_eval incl ds shs ws ocs : results_decide incl ds shs ws ocs ->
-  any_gt (nd_add (map fst ocs) (map snd ocs)) shs = negb (fits shs ocs).
+Lemma view_outside_eval incl ds shs ws ocs : results_decide incl ds shs ws ocs -> fits shs ocs = true ->
+  view_outside shs (map fst ocs) (map snd ocs) = false.
 Proof.
   induction 1 as [|d ds sh shs w ws [o c] ocs Hd Hsh _ IH]; [reflexivity|].
-  cbn [map nd_add any_gt fst snd]. unfold fits. cbn [combine forallb fst snd]. fold (fits shs ocs). rewrite IH.
-  cbn [decides] in Hd. destruct Hd as (Ho & Hc & Hoc & _). pose proof axis_max_two64.
-  rewrite u64_add_small by lia. rewrite negb_andb. f_equal. lia.
+  unfold fits. cbn [combine forallb fst snd]. fold (fits shs ocs). intro F. apply andb_true_iff in F. destruct F as [F1 F2].
+  cbn [map view_outside fst snd]. rewrite (IH F2).
+  cbn [decides] in Hd. destruct Hd as (Ho & Hc & Hoc & _). pose proof p52_two64.
+  apply Z.leb_le in F1. rewrite u64_sub_small by lia. lia.
 Qed.
 
 Lemma checked_view_eval incl ds shs ws ocs : results_decide incl ds shs ws ocs ->
@@ -93,17 +99,14 @@ Lemma checked_view_eval incl ds shs ws ocs : results_decide incl ds shs ws ocs -
   if fits shs ocs then Ok (map fst ocs, map snd ocs) else Err E_OutOfBounds.
 Proof.
   intro H. pose proof (results_lengths _ _ _ _ _ H) as L.
-  unfold checked_view, positionAndExtentInData, positionInData, mkDataView. cbn [fst snd].
-  assert (Z1 : zlen (map fst ocs) = zlen (map snd ocs)) by (unfold zlen; rewrite !map_length; reflexivity).
-  assert (Z2 : zlen (map fst ocs) = zlen shs) by (unfold zlen; rewrite map_length, L; reflexivity).
-  assert (Z3 : zlen (map snd ocs) = zlen shs) by (rewrite <- Z1; exact Z2).
-  assert (Z4 : zlen shs = zlen (map (fun x => u64_sub x 1) (nd_add (map fst ocs) (map snd ocs)))).
-  { clear -L. unfold zlen. f_equal. revert shs L. induction ocs as [|[o c] ocs IH]; intros [|s shs] L; cbn in *; try lia.
-    f_equal. apply IH. lia. }
-  apply Z.eqb_eq in Z1, Z2, Z3, Z4.
-  rewrite Z1. cbn [negb bind]. rewrite Z4. cbn [negb].
-  rewrite (all_lt_eval _ _ _ _ _ H). destruct (fits shs ocs) eqn:F; cbn [negb]; [|reflexivity].
-  rewrite Z2, Z3. cbn [negb]. rewrite (any_gt_eval _ _ _ _ _ H), F. reflexivity.
+  unfold checked_view, positionAndExtentInData, mkDataView. cbn [fst snd].
+  assert (Z2 : (zlen (map fst ocs) =? zlen shs) = true) by (apply Z.eqb_eq; unfold zlen; rewrite map_length, L; reflexivity).
+  assert (Z3 : (zlen (map snd ocs) =? zlen shs) = true) by (apply Z.eqb_eq; unfold zlen; rewrite map_length, L; reflexivity).
+  assert (Z2' : (zlen shs =? zlen (map fst ocs)) = true) by (rewrite Z.eqb_sym; exact Z2).
+  assert (Z3' : (zlen shs =? zlen (map snd ocs)) = true) by (rewrite Z.eqb_sym; exact Z3).
+  rewrite Z2', Z3'. cbn [negb orb]. rewrite (extent_in_data_eval _ _ _ _ _ H).
+  destruct (fits shs ocs) eqn:F; cbn [negb]; [|reflexivity].
+  rewrite Z2, Z3. cbn [negb]. rewrite (view_outside_eval _ _ _ _ _ H F). reflexivity.
 Qed.
 
 Lemma results_verdict incl ds shs ws ocs : results_decide incl ds shs ws ocs ->
